@@ -171,6 +171,70 @@ func (w *World) oracleC05(pre *Snapshot, op Op, post *Snapshot, decision bool, b
 	w.checkTrackedUsage(post)
 }
 
+// GroupUsageLostShape is the exclusion of the listed known finding "group usage reset / application links lost when a
+// group limit is dropped by a reload".
+const GroupUsageLostShape = "ugm-group-usage-lost-on-limit-drop"
+
+// DroppedGroupLimits returns the groups (named or "*") that have a limit on some queue in the old configuration which
+// the new configuration no longer has on that queue: the trigger of the listed finding.
+func DroppedGroupLimits(o, n *LimitRef) []string {
+	keys := func(l *LimitRef) map[string]bool {
+		out := map[string]bool{}
+		for p, m := range l.GroupRes {
+			for g := range m {
+				out[p+"|"+g] = true
+			}
+		}
+		for p, m := range l.GroupApps {
+			for g := range m {
+				out[p+"|"+g] = true
+			}
+		}
+		return out
+	}
+	nk := keys(n)
+	seen := map[string]bool{}
+	for k := range keys(o) {
+		if !nk[k] {
+			seen[k[strings.Index(k, "|")+1:]] = true
+		}
+	}
+	return SortedKeys(seen)
+}
+
+// taintGroup: the group lost a limit in a reload (listed known finding): the manager resets the usage of the group and
+// unlinks its applications, which are linked again (to this or another group of the user) without their usage when
+// they are scheduled next. The group, and every group one of those applications is linked to later, is not compared.
+func (w *World) taintGroup(g string, before *Snapshot) {
+	if w.GroupTaint == nil {
+		w.GroupTaint, w.AppTaint = map[string]bool{}, map[string]bool{}
+	}
+	w.GroupTaint[g] = true
+	if before == nil {
+		return
+	}
+	for _, ut := range before.Users {
+		for app, ag := range ut.AppGroups {
+			if ag == g {
+				w.AppTaint[app] = true
+			}
+		}
+	}
+}
+
+func (w *World) propagateGroupTaint(s *Snapshot) {
+	if len(w.AppTaint) == 0 {
+		return
+	}
+	for _, ut := range s.Users {
+		for app, ag := range ut.AppGroups {
+			if ag != "" && w.AppTaint[app] {
+				w.GroupTaint[ag] = true
+			}
+		}
+	}
+}
+
 // checkTrackedUsage: tracked usage per user/group and queue equals the sum of the live allocations of their
 // applications there (real and placeholder).
 func (w *World) checkTrackedUsage(s *Snapshot) {
@@ -206,6 +270,10 @@ func (w *World) checkTrackedUsage(s *Snapshot) {
 	}
 	cmp := func(kind string, have map[string]*TrackSnap, want map[string]map[string]Res) {
 		for name, t := range have {
+			if kind == "group" && w.GroupTaint[name] {
+				w.Tag("c05-group-usage-skipped-known-finding")
+				continue
+			}
 			for p, r := range t.Usage {
 				exp := want[name][p]
 				if exp == nil {
@@ -217,6 +285,9 @@ func (w *World) checkTrackedUsage(s *Snapshot) {
 			}
 		}
 		for name, paths := range want {
+			if kind == "group" && w.GroupTaint[name] {
+				continue
+			}
 			for p, exp := range paths {
 				var got Res
 				if t := have[name]; t != nil {
